@@ -185,6 +185,7 @@ class Predict:
     args: List[str]    # textual args after dt
     in_loop: Optional[Any]   # loop bound Scalar (or text) when inside the k-loop
     guard: Optional[Any]
+    guard_lhs: Any = None    # evaluated left operand of the guard comparison
     line: Optional[int] = None
 
 
@@ -357,8 +358,12 @@ class StepExec:
         if dt is not None and dt[0] == "kw":
             dt = dt[2]
         dtv = self.num(self.resolve(dt)) if dt is not None else None
+        g = self.guard
+        glhs = None
+        if g is not None and g[0] == "bin" and len(g) == 4:
+            glhs = self.num(self.resolve(g[2]))
         self.plan.predicts.append(Predict(dtv, cppast.show(dt) if dt else "?", [cppast.show(a[2] if a[0] == "kw" else a) for a in args[1:]],
-                                          self.loop, self.guard))
+                                          self.loop, g, glhs))
 
     def scan_calls(self, e):
         if not isinstance(e, tuple):
@@ -699,9 +704,17 @@ def check_stepplan(ctx: core.Ctx, plan: StepPlan, file: str, func: str, tag: str
     if g is not None and g[0] == "bin" and g[1] in (">=", ">"):
         lhs, rhs = g[2], g[3]
         eps = s_const(rhs[1]) if rhs[0] == "num" else None
+        lhs_ok = False
+        if r is not None and rp.guard_lhs is not None:
+            lhs_ok = rp.guard_lhs in (opaque("abs", r), opaque("abs", -r))
         if eps is not None and () in eps.t:
             e = eps.t[()]
-            if 0 < e <= Fraction(1, 10**9) + Fraction(1, 10**20):
+            if not lhs_ok:
+                one_sided = r is not None and rp.guard_lhs is not None and rp.guard_lhs in (r, -r)
+                why = (f"remainder guard tests `{cppast.show(lhs)}` without abs(): it is one-sided, so the remainder of a move in the other "
+                       f"direction is silently skipped (or a sub-eps step of the wrong sign is taken)") if one_sided else \
+                      f"remainder guard tests `{cppast.show(lhs)}`, which is not |target - (held + step*k)|"
+            elif 0 < e <= Fraction(1, 10**9) + Fraction(1, 10**20):
                 okg = True
             else:
                 why = f"remainder guard tolerance is {float(e)!r}; the property allows at most 1e-9 s to be dropped"
